@@ -38,7 +38,11 @@ def canon(x):
             # in the order raised: `.exceptions` is a tuple, its order is part of the outcome
             return "EG[" + ",".join(canon(e) for e in x.exceptions) + "]"
         f = getattr(x, "field", None)
-        return type(x).__name__ + (f"[{f}]" if f else "")
+        # the message is part of the outcome too (a set rendered into it would make it depend on the hash seed);
+        # object addresses are masked
+        import re as _re
+        msg = _re.sub(r" at 0x[0-9a-fA-F]+", " at 0x…", str(x).splitlines()[0] if str(x) else "")
+        return type(x).__name__ + (f"[{f}]" if f else "") + ":" + msg
     if isinstance(x, (str, int, bool, float)) or x is None:
         return repr(x)
     name = type(x).__name__
@@ -179,6 +183,10 @@ def build(seed):
         metadata.Metadata.from_raw(raw)), raw)
     bad = dict(raw, version="not a version", requires_python="??", name="-bad-", license_files=["../x"], unknown_key="1")
     add("meta.bad", lambda bad=bad: metadata.Metadata.from_raw(bad), bad)
+    for ct in ("text/html", "text/markdown; variant=gh", "text/plain; charset=latin-1", "garbage"):
+        bad_ct = dict(raw, description_content_type=ct)
+        add("meta.bad.ctype", lambda b=bad_ct: metadata.Metadata.from_raw(b), bad_ct)
+        add("meta.bad.ctype.lazy", lambda b=bad_ct: metadata.Metadata.from_raw(b, validate=False).description_content_type, bad_ct)
     doc = "Metadata-Version: 2.1\nName: x\nVersion: 1\nKeywords: a,b\nProject-URL: A, u1\nProject-URL: B, u2\nUnknown: 1\nName: y\n\nbody"
     add("email", lambda: metadata.parse_email(doc))
     add("email.keys", lambda: [list(d) for d in metadata.parse_email(doc)])
